@@ -306,7 +306,7 @@ def run(tier):
                 if not nat["ok"]:
                     fnd.report("wrong-line:%s" % name, "%s in %s after %d lines of preceding text: reported at %s, written at %s" % (name, where, len(shape), nat.get("got") or nat.get("why"), nat.get("expected")), nat["files"], cmd="sylt --no-std -o out.lua main.sy")
     # a user definition that collides with a name the bundled preamble imports into every file: the construct the user wrote is in the user's file
-    for uname in ("print", "max"):
+    for uname in ("print", "max", "math", "list"):
         for pre_lines in (0, 3):
             text = "// c\n" * pre_lines + "start :: fn do\nend\n\n%s :: fn x do\nend\n" % uname
             rc, lua, outp = common.compile_sy(art["sylt"], {"main.sy": text}); nat_n += 1
